@@ -86,6 +86,9 @@ func (p *Packet) decodeHead(data []byte) error {
 	if len(data) < 16 {
 		return ErrHeaderLength2Short
 	}
+	// 复用Packet时清除上一个包留下的状态 否则视频帧之后的音频包会按视频帧的头长度读取而越界
+	p.customAttributes = customAttributes{}
+	p.Timestamp, p.LastIFrameInterval, p.LastFrameInterval = 0, 0, 0
 	p.ID = string(data[:4])
 	if p.ID != "01cd" { // 1078协议固定
 		fmt.Println(fmt.Sprintf("%x", data[:16]))
